@@ -91,6 +91,7 @@ class Facts:
                         trait_impls[it["trait_item"]].add(it["path"])
         cg = defaultdict(set)
         sites = defaultdict(list)
+        self._generic_edges = set()
         for p, f in self.fns.items():
             m = f.get("mir")
             if not m:
@@ -121,6 +122,11 @@ class Facts:
                         targets.add(res or callee)
                 cg[p] |= targets
                 sites[p].append((bi, t, targets))
+                ga = t.get("gargs") or []
+                if callee is not None and ga and re.fullmatch(r"_*[A-Z][A-Za-z0-9]{0,2}|__[A-Z]", ga[0] or ""):
+                    # `<T as Trait>::m` with T a type parameter of the caller: type-directed, depth bounded by type nesting
+                    for q in targets:
+                        self._generic_edges.add((p, q))
         self._cg = cg
         self._sites = sites
         return cg
